@@ -48,23 +48,23 @@ fn dispatch(st: &mut State, op: &Value) -> Value {
         "repr" => ops_field::exec_repr(op),
         "ext" => ops_field::exec_ext(op),
         "cm" => match g {
-            "G1" => ops_curve::exec_cm(&mut st.curve.g1, op),
-            "G2" => ops_curve::exec_cm(&mut st.curve.g2, op),
+            "G1" => ops_curve::exec_cm_g1(&mut st.curve.g1, op),
+            "G2" => ops_curve::exec_cm_g2(&mut st.curve.g2, op),
             _ => panic!("bad group"),
         },
         "smul" => match g {
-            "G1" => ops_curve::exec_smul::<pairing::bls12_381::G1>(op),
-            "G2" => ops_curve::exec_smul::<pairing::bls12_381::G2>(op),
+            "G1" => ops_curve::exec_smul_g1(op),
+            "G2" => ops_curve::exec_smul_g2(op),
             _ => panic!("bad group"),
         },
         "msm" => match g {
-            "G1" => ops_curve::exec_msm::<pairing::bls12_381::G1>(op),
-            "G2" => ops_curve::exec_msm::<pairing::bls12_381::G2>(op),
+            "G1" => ops_curve::exec_msm_g1(op),
+            "G2" => ops_curve::exec_msm_g2(op),
             _ => panic!("bad group"),
         },
         "msml" => match g {
-            "G1" => ops_curve::exec_msml::<pairing::bls12_381::G1>(op),
-            "G2" => ops_curve::exec_msml::<pairing::bls12_381::G2>(op),
+            "G1" => ops_curve::exec_msml_g1(op),
+            "G2" => ops_curve::exec_msml_g2(op),
             _ => panic!("bad group"),
         },
         "xmd" | "xof" | "h2f" | "okm" | "h2c" => ops_hash::exec_hash(op),
